@@ -266,7 +266,7 @@ pub fn run(p: &Params) -> (Stats, &'static str) {
     let mut st = Stats::new();
     let base = p.shard_seed("C16");
     let vals = [1u64, 2, 3, 5, 10, 60];
-    let reps = if p.tier_thorough { 12 } else { 1 };
+    let reps = if p.tier_thorough { 600 } else { 1 };
     let mut idx = 0u64;
     for rep in 0..reps {
         for i_s in vals {
